@@ -48,7 +48,7 @@ NO_PANIC_EXACT = {
     "std::option::Option::<T>::map", "std::option::Option::<T>::map_or", "std::option::Option::<T>::is_some", "std::option::Option::<T>::is_none", "std::option::Option::<T>::unwrap_or", "std::option::Option::<T>::unwrap_or_default", "std::option::Option::<T>::ok_or", "std::result::Result::<T, E>::map", "std::result::Result::<T, E>::map_err", "std::result::Result::<T, E>::is_ok", "std::result::Result::<T, E>::is_err", "std::result::Result::<T, E>::ok", "std::result::Result::<T, E>::and_then",
     "std::iter::Iterator::enumerate", "std::iter::Iterator::zip", "std::iter::Iterator::skip", "std::iter::Iterator::cycle", "std::iter::Iterator::for_each", "std::iter::Iterator::next",
     "core::slice::<impl [T]>::iter", "core::slice::<impl [T]>::iter_mut", "core::slice::<impl [T]>::len", "core::slice::<impl [T]>::is_empty",
-    "core::str::<impl str>::chars", "core::str::<impl str>::is_empty", "core::str::<impl str>::len", "std::str::from_utf8", "core::str::from_utf8",
+    "core::str::<impl str>::chars", "core::str::<impl str>::is_empty", "core::str::<impl str>::len", "core::str::<impl str>::as_bytes", "core::str::<impl str>::bytes", "core::str::<impl str>::char_indices", "core::str::<impl str>::is_ascii", "core::slice::<impl [u8]>::is_ascii", "core::slice::<impl [u8]>::make_ascii_uppercase", "core::slice::<impl [u8]>::to_ascii_uppercase", "core::slice::<impl [u8]>::eq_ignore_ascii_case", "core::str::<impl str>::to_ascii_uppercase", "core::str::<impl str>::make_ascii_uppercase", "core::num::<impl u8>::to_ascii_uppercase", "core::num::<impl u8>::is_ascii", "core::num::<impl u8>::is_ascii_control", "std::str::from_utf8", "core::str::from_utf8",
     "digest::CtOutput::<T>::into_bytes", "digest::generic_array::GenericArray::<T, N>::as_slice",
     "std::array::<impl [T; N]>::as_slice", "std::array::<impl [T; N]>::as_mut_slice",
     "std::array::equality::<impl std::cmp::PartialEq<[U; N]> for [T; N]>::eq", "std::array::equality::<impl std::cmp::PartialEq<[U; N]> for [T; N]>::ne",
